@@ -318,7 +318,8 @@ PATHS_PLANS = {
                   J("dw", "dense", maxn=8, weight=0), J("uw", "dense", maxn=8, weight=0), J("dw", "ladder", maxl=26), J("uw", "ladder", maxl=26),
                   J("dw", "layered", maxv=11, weight=0), J("uw", "layered", maxv=11, weight=1), J("dw", "grid", side=5, weight=1), J("uw", "grid", side=5, weight=0),
                   J("dw", "e2", n=4, noloops=True, weights="1,33554432,33554434", halves=True, maxedges=5), J("uw", "perm", n=4, edges=5, weights="1,33554432,33554434", halves=True), J("uw", "e2", n=4, weights="1,16777217"),
-                  J("dw", "chains", maxn=130), J("uw", "chains", maxn=130), J("dw", "snake", maxt=12), J("uw", "snake", maxt=12)],
+                  J("dw", "chains", maxn=130), J("uw", "chains", maxn=130), J("dw", "snake", maxt=12), J("uw", "snake", maxt=12),
+                  J("uw", "e2", n=5, noloops=True, weights="1,5"), J("uw", "e2", n=5, noloops=True, weights="0,2")],
         "thorough": [J("dw", "lists", n=3, weights="0,1,3"), J("dw", "e2", n=3, weights="0,1,3,8"), J("uw", "e2", n=3, weights="0,1,3,8"), J("uw", "e2", n=4, weights="0,1,3"),
                      J("uw", "perm", n=4, edges=6, weights="1,2,3,6,8"), J("uw", "perm", n=4, edges=5, weights="0,1,3,8"), J("dw", "perm", n=4, edges=5, weights="0,1,3"), J("dw", "perm", n=4, edges=6, weights="1,3"),
                      J("dw", "dense", maxn=9, weight=0), J("uw", "dense", maxn=9, weight=0), J("dw", "ladder", maxl=30), J("uw", "ladder", maxl=30),
